@@ -630,7 +630,10 @@ def renderable(m):
             and (not isinstance(m, Reference) or ref_renderable(m))
             and (not isinstance(m, Note) or not isinstance(m.parent, Table)
                  or (m.parent.name is not None and m.parent.schema is not None and m.parent.note is m))
-            and (not isinstance(m, Note) or not isinstance(m.parent, Column) or m.parent.name is not None))
+            and (not isinstance(m, Note) or not isinstance(m.parent, Column) or m.parent.name is not None)
+            and (not isinstance(m, Enum) or (m.name is not None and m.schema is not None and items_named(m)))
+            and (not isinstance(m, Table) or (m.name is not None and m.schema is not None and elements_renderable(m)
+                                              and columns_ok(m) and m.note.parent is m)))
 
 
 @contract('pydbml.renderer.sql.default.renderer:DefaultSQLRenderer.render')
@@ -639,7 +642,7 @@ class sql_render:
     AttributeMissingError iff a required attribute is None, and otherwise is the DDL text of
     model's kind."""
     properties = ('C03', 'C04', 'C16', 'C17', 'C10')
-    params = {'cls': _DefaultSQLRenderer, 'model': 'Union[Column,Index,EnumItem,Expression,Note]'}
+    params = {'cls': _DefaultSQLRenderer, 'model': 'Union[Column,Index,EnumItem,Expression,Note,Enum]'}
     pure = True
     ret = 'str'
 
@@ -796,3 +799,66 @@ class render_table:
 
     def ensures_ddl(model, result):
         return result == sql_table(model)
+
+
+@contract('pydbml.renderer.sql.default.utils:reorder_tables_for_sql')
+class reorder_tables_for_sql:
+    """C18, second sentence: whatever the order chosen, it is a permutation of the tables and the
+    call writes nothing (so it depends only on the model).  The ordering clause itself (targets before
+    holders) is refuted on the unchanged tree: known finding C18.B.order."""
+    properties = ('C18',)
+    params = {'tables': 'List[Table]', 'refs': 'List[Reference]'}
+    pure = True
+    ret = 'List[Table]'
+
+    def requires_wellformed(tables, refs):
+        return all(len(r.col1) > 0 and len(r.col2) > 0 and same_table(r.col1) and same_table(r.col2) for r in refs)
+
+    def returns(tables, refs):
+        return the_table_order(tables, refs)
+
+    def ensures_same_length(tables, refs, result):
+        return len(result) == len(tables)
+
+    def ensures_every_table_once(tables, refs, result):
+        return all(t in result for t in tables) and all(t in tables for t in result)
+
+    def ensures_fresh(tables, refs, result):
+        return fresh(result)
+
+
+@abstract('List[Table]')
+def the_table_order(tables, refs):
+    """result of reorder_tables_for_sql(tables, refs): a permutation of `tables` (its contract)"""
+    from pydbml.renderer.sql.default.utils import reorder_tables_for_sql as f
+    return f(tables, refs)
+
+
+def db_renderable(db):
+    return (all(renderable(e) and required_present(e) for e in db.enums)
+            and all(renderable(t) and required_present(t) and t.database is db for t in db.tables)
+            and refs_wellformed(db)
+            and all(renderable(r) and required_present(r) for r in db.refs))
+
+
+def sql_database(db):
+    """enums, then the tables in the chosen order, then the references that are not inline — each
+    the element's own rendering, exactly once, separated by blank lines (C03, C04, C16)"""
+    return '\n\n'.join(rendered_sql(i) for i in (
+        *db.enums, *the_table_order(db.tables, db.refs),
+        *(r for r in db.refs if not (r._inline and r.type != '<>'))))
+
+
+@contract('pydbml.renderer.sql.default.renderer:DefaultSQLRenderer.render_db')
+class sql_render_db:
+    tier = 'thorough'          # several minutes: composite of every element renderer
+    properties = ('C03', 'C04', 'C16', 'C18')
+    params = {'cls': _DefaultSQLRenderer, 'db': 'Database'}
+    pure = True
+    ret = 'str'
+
+    def requires_renderable(cls, db):
+        return db_renderable(db)
+
+    def ensures_pieces(cls, db, result):
+        return result == sql_database(db)
